@@ -47,8 +47,9 @@ GARBAGE = ["this is not fortran at all", "end", "contains", "end module nothing"
            "x = '[bold]' &\n\n& '[/bold]'\n&"]
 
 
-class Timeout(Exception):
-    pass
+class Timeout(BaseException):
+    """raised by the watchdog; not an Exception, so that FORD's own `except Exception` handlers (the per-file
+    handler of Project.__init__ among them) cannot swallow it and turn a hang into a skipped file"""
 
 
 @contextlib.contextmanager
@@ -89,7 +90,28 @@ def bad_variants(rng, valid):
         out.append(("dup-end", "\n".join(lines[:i] + ["end"] + lines[i:]) + "\n", None))
         out.append(("contains", "\n".join(lines[:i] + ["contains"] + lines[i:]) + "\n", None))
     out.append(("garbage", rng.choice(GARBAGE) + "\n", None))
+    out += cut_in_continuation(rng, lines)
     return out
+
+
+def cut_in_continuation(rng, lines):
+    """the file ends inside a continued statement (a cut at a physical line, not at a statement boundary), with
+    or without documentation pending for that statement"""
+    idx = [i for i, l in enumerate(lines) if l and "::" in l and "!" not in l and not l.rstrip().endswith("&")]
+    if not idx:
+        return []
+    i = rng.choice(idx)
+    head = lines[:i]
+    shape = rng.choice(["inline-doc", "doc-after", "plain", "predoc"])
+    if shape == "inline-doc":
+        tail = [lines[i] + ", &   !! pending documentation"]
+    elif shape == "doc-after":
+        tail = [lines[i] + ", &", "    !! pending documentation"]
+    elif shape == "predoc":
+        tail = ["  !> documentation before", lines[i] + ", &"]
+    else:
+        tail = [lines[i] + ", &"]
+    return [("cut-in-continuation:" + shape, "\n".join(head + tail) + "\n", None)]
 
 
 def stray_end_variants(rng, n):
@@ -115,7 +137,7 @@ def project_snapshot(root, order, names):
     fp.find_all_files = lambda settings: [pathlib.Path(root) / "src" / n for n in order]
     buf = io.StringIO()
     try:
-        with watchdog(60):
+        with watchdog(20):
             p = F.parse_project(root, correlate=True)
     finally:
         fp.find_all_files = orig
@@ -149,17 +171,21 @@ def run(chk):
             valid = gen_valid_files(rng, 1)[0]
             variants += bad_variants(rng, valid)
         variants += stray_end_variants(rng, 60 if quick else 1200)
+        hangs = 0
         if True:
             for kind, text, ev in variants:
                 if ev is None or not core.is_ascii(text):
                     continue
                 t0 = time.time()
+                if hangs >= 3:
+                    break     # three non-terminating inputs are reported; do not wait for more of them
                 try:
-                    with watchdog(30):
+                    with watchdog(15):
                         res = I.parse_text(text, "b.f90", workdir=work)
                 except Timeout:
-                    chk.violation("failing-input", {"what": "FORD did not terminate within 30 s on a truncated file",
-                                                    "text": text}, True)
+                    hangs += 1
+                    chk.violation("failing-input", {"what": "FORD did not terminate within 15 s on a truncated file",
+                                                    "kind": kind, "text": text}, True)
                     continue
                 # a stray END is invalid by construction; a cut may fall on a unit boundary (then the file is valid)
                 must = kind == "stray-end"
@@ -190,6 +216,10 @@ def run(chk):
             kind, btext, _ = rng.choice(bad_variants(rng, src))
             if pi < len(special):
                 kind, btext = "quoted-brackets", special[pi]
+            elif pi < len(special) + 6:
+                cc = cut_in_continuation(rng, [t for _, t in src[1]])
+                if cc:
+                    kind, btext, _ = cc[0]
             names = [v[0]["name"] for v in valids]
             with F.Work({f"src/{v[0]['name']}": v[2] for v in valids}) as w:
                 try:
@@ -200,7 +230,15 @@ def run(chk):
                 except Exception as e:  # noqa
                     continue   # the valid project itself is rejected (e.g. two programs): not a C20 case
                 # is the bad file rejected at all? (a truncated file may still be a valid file)
-                single = I.parse_text(btext, "bad.f90", workdir=work)
+                try:
+                    with watchdog(15):
+                        single = I.parse_text(btext, "bad.f90", workdir=work)
+                except Timeout:
+                    hangs += 1
+                    if hangs <= 6:
+                        chk.violation("failing-input", {"what": "FORD did not terminate within 15 s on a bad file",
+                                                        "kind": kind, "text": btext}, True)
+                    continue
                 prev_bad = None
                 for pos in range(nvalid + 1):
                     # FORD parses files in sorted order: the name places the bad file before / between / after
@@ -220,24 +258,33 @@ def run(chk):
                     except BaseException as e:  # noqa
                         if isinstance(e, (KeyboardInterrupt, SystemExit)):
                             raise
+                        if isinstance(e, Timeout):
+                            chk.violation("failing-input", {"what": "FORD did not terminate", "bad": btext,
+                                                            "order": order, "bad_name": bad_name,
+                                                            "valid": {v[0]["name"]: v[2] for v in valids}}, True)
+                            break
                         chk.violation("failing-input", {"what": "a bad file aborted the whole project instead of "
                                       "being skipped", "error": f"{type(e).__name__}: {e}", "bad": btext,
-                                      "kind": kind, "order": order}, True)
+                                      "kind": kind, "order": order, "bad_name": bad_name,
+                                      "valid": {v[0]["name"]: v[2] for v in valids}}, True)
                         break
                     chk.count(("iso", pi, pos, kind), sample={"order": order, "kind": kind,
                                                               "bad_rejected": single[0] != "ok"} if pi < 2 else None)
                     if single[0] != "ok":
                         if bad_name in files_now:
                             chk.violation("failing-input", {"what": "a file that cannot be parsed on its own was "
-                                          "registered in the project", "bad": btext}, True)
+                                          "registered in the project", "bad": btext, "order": order,
+                                          "bad_name": bad_name, "valid": {v[0]["name"]: v[2] for v in valids}}, True)
                         if bad_name not in log:
                             chk.violation("failing-input", {"what": "rejected file not named in the diagnostic",
-                                                            "bad": btext, "log": log[-500:]}, True)
+                                                            "bad": btext, "log": log[-500:], "order": order,
+                                                            "bad_name": bad_name,
+                                                            "valid": {v[0]["name"]: v[2] for v in valids}}, True)
                         if snap != base:
                             diff = [n for n in names if snap.get(n) != base.get(n)]
                             chk.violation("failing-input", {"what": "the documentation of other files depends on "
                                           "the presence of a rejected file", "files": diff, "order": order,
-                                          "kind": kind, "bad": btext,
+                                          "kind": kind, "bad": btext, "bad_name": bad_name,
                                           "valid": {v[0]["name"]: v[2] for v in valids}}, True)
                             break
     finally:
@@ -245,11 +292,50 @@ def run(chk):
 
 
 def replay(chk, rep):
-    if "text" in rep:
-        print(I.parse_text(rep["text"])[:2])
-    else:
-        print({k: v for k, v in rep.items() if k not in ("valid", "bad")})
-    return 0
+    """re-run the stored scenario on the current tree; 1 when it still fails"""
+    work = tempfile.mkdtemp(prefix="verif_c20r_")
+    try:
+        text = rep.get("text") if rep.get("text") is not None else rep.get("bad")
+        single = None
+        if text is not None:
+            try:
+                with watchdog(15):
+                    single = I.parse_text(text, "b.f90", workdir=work)
+            except Timeout:
+                print("FORD does not terminate on the stored file")
+                return 1
+            print("single file:", single[:2])
+            if rep.get("kind") == "stray-end" and single[0] == "ok":
+                print("a stray END is still accepted")
+                return 1
+        if rep.get("valid") and rep.get("order") and rep.get("bad_name"):
+            names = [n for n in rep["order"] if n != rep["bad_name"]]
+            with F.Work({f"src/{n}": s for n, s in rep["valid"].items()}) as w:
+                base, _, _ = project_snapshot(w.root, names, names)
+                w.write(f"src/{rep['bad_name']}", rep["bad"])
+                try:
+                    snap, files_now, log = project_snapshot(w.root, rep["order"], names)
+                except Timeout:
+                    print("FORD does not terminate on the stored project")
+                    return 1
+                except Exception as e:  # noqa
+                    print("the bad file aborts the project:", type(e).__name__, e)
+                    return 1
+                if single is not None and single[0] != "ok":
+                    if rep["bad_name"] in files_now:
+                        print("rejected file registered")
+                        return 1
+                    if rep["bad_name"] not in log:
+                        print("rejected file not named in the diagnostic")
+                        return 1
+                    if snap != base:
+                        print("other files' documentation differs")
+                        return 1
+        elif text is None:
+            print({k: v for k, v in rep.items() if k not in ("valid", "bad")})
+        return 0
+    finally:
+        shutil.rmtree(work, ignore_errors=True)
 
 
 def finish(chk):
